@@ -102,6 +102,7 @@ type Run struct {
 
 	exitSync atomic.Int64
 	hot      []uint64
+	always   []uint64 // sites that yield whatever is left of the yield budget
 	hit      []uint64
 	selState uint64
 	yieldsLeft atomic.Int64
@@ -151,6 +152,7 @@ type RunCfg struct {
 	QuantumMax   int // quantum drawn in [0,QuantumMax]; 0 = run until block
 	HotSites     []int
 	YieldBudget  int
+	AlwaysSites  []int // hot sites exempt from the yield budget (rare windows late in a run)
 	StallMax     int // a task parked at a hot intra-op site may be stalled up to this many decisions
 	StartDelay   bool
 	Profile      bool   // record which intra-operation sites are executed
@@ -600,8 +602,10 @@ func (r *Run) hook(kind, site int) bool {
 		case kHost:
 			preempt = true // explicit yield of a harness task (retry loops)
 		case kYield:
-			if r.isHot(site) && r.yieldsLeft.Load() > 0 {
-				r.yieldsLeft.Add(-1)
+			if always := site >= 0 && site>>6 < len(r.always) && r.always[site>>6]&(1<<(uint(site)&63)) != 0; always || (r.isHot(site) && r.yieldsLeft.Load() > 0) {
+				if !always {
+					r.yieldsLeft.Add(-1)
+				}
 				preempt = true
 				if site >= 0 && interp.VerifSites[site].Kind == "operand" {
 					r.Stats.PreemptOperand++
@@ -663,6 +667,12 @@ func NewRun(tape *Tape, cfg RunCfg) *Run {
 	for _, s := range cfg.HotSites {
 		if s >= 0 && s < len(interp.VerifSites) {
 			r.hot[s>>6] |= 1 << (uint(s) & 63)
+		}
+	}
+	r.always = make([]uint64, (len(interp.VerifSites)+63)/64)
+	for _, s := range cfg.AlwaysSites {
+		if s >= 0 && s < len(interp.VerifSites) {
+			r.always[s>>6] |= 1 << (uint(s) & 63)
 		}
 	}
 	r.yieldsLeft.Store(int64(cfg.YieldBudget))
